@@ -527,3 +527,21 @@ Definition cresolve (c : cst) (k : key) : cst :=
        crolled := (match stat with PCommitted => crolled c | _ => k :: crolled c end) |}
   else c.
 Definition crun (c : cst) (ks : list key) : cst := fold_left cresolve ks c.
+
+(* ---------------------------------------------------------------- one flush = several batches (batchExecutor.process) *)
+(* every batch (one region) is either applied or refused by the store with a key error of some class (0 = AssertionFailed,
+   anything else = write conflict, already exists, lock, abort, ...). Results arrive in any order. process() returns the first
+   error that is not an assertion failure (and cancels the rest); an assertion failure is held back and returned only if no other
+   error arrived. [arrivals]: the results in the order they are received. *)
+Definition batch_res := option N.        (* None = applied, Some c = refused with class c *)
+Definition process_err (arrivals : list batch_res) : option N :=
+  let other := find (fun r => match r with Some c => negb (c =? 0) | None => false end) arrivals in
+  let asrt := find (fun r => match r with Some c => c =? 0 | None => false end) arrivals in
+  match other with
+  | Some (Some c) => Some c
+  | _ => match asrt with Some (Some c) => Some c | _ => None end
+  end.
+
+(* the flush function's result for the PipelinedMemDB: nil iff process() returned nil *)
+Definition complete_batches (s : st) (arrivals : list batch_res) : st :=
+  complete s (match process_err arrivals with None => true | Some _ => false end).
